@@ -32,6 +32,7 @@ type World struct {
 	Traces     []*Trace
 	GhostSorts map[string]ghostInfo
 	errors     []string
+	recLocals  map[string][]localVar // locals of functions under contract as recorded by `govc ledger`
 	dropped    map[string]bool // assumption clauses dropped because they no longer fit the source (softFail)
 	droppedMu  sync.Mutex
 	allTypes   map[string]*types.Package // path -> package (all reachable)
@@ -547,6 +548,22 @@ func (w *World) calleeEnv(u *Unit, c *Contract, callee *ssa.Function, sig *types
 			env.vars[n] = a
 		}
 		env.vars[fmt.Sprintf("arg%d", j)] = a
+	}
+	// parameters renamed since the contract was written keep answering to their old names
+	if callee != nil && callee.Blocks != nil {
+		if w.recLocals == nil {
+			w.localAlias(callee, "")
+		}
+		for _, lv := range w.recLocals[callee.String()] {
+			if _, known := env.vars[lv.Name]; known || !strings.HasPrefix(lv.Type, "param ") {
+				continue
+			}
+			if alias := w.localAlias(callee, lv.Name); alias != "" {
+				if v, ok := env.vars[alias]; ok {
+					env.vars[lv.Name] = v
+				}
+			}
+		}
 	}
 	return env
 }
